@@ -356,23 +356,39 @@ class Check:
             self.samples.append(sample)
 
     # -- proof obligations ----------------------------------------------
-    def prove(self, extra_targets=()):
-        """Translator + Coq build of this property's theorem file. Records obligations."""
-        pf = "Properties_%s.v" % self.prop
+    def prove(self, extra_targets=(), extra_props=()):
+        """Translator + Coq build of this property's theorem file(s). Records obligations.
+        extra_props: further statement files under coq/props (e.g. "Properties_C06_current.v") whose theorems count as
+        obligations of this property too; extra_targets: other .vo targets (extraction roots, ...)."""
+        pfs = ["Properties_%s.v" % self.prop] + list(extra_props)
         try:
             self.extra["translator"] = run_translators()
         except Exception as ex:  # translator crash = untranslatable, never an alarm by itself
             self.extra["translator"] = {"error": repr(ex)}
-        ok, log = coq_make(["props/Properties_%s.vo" % self.prop] + list(extra_targets))
-        names = count_obligations(pf)
+        ok, log = coq_make(["props/" + pf + "o" for pf in pfs] + list(extra_targets))
+        names = []
+        for pf in pfs:
+            names += count_obligations(pf)
         self.obligations = names
+        if len(pfs) > 1:
+            self.checker_cmd = "make -C coq " + " ".join("props/" + pf + "o" for pf in pfs) + " (coqc 8.16.1, full .vo build)"
         if ok:
             self.discharged = list(names)
-            ax, _ = print_assumptions(pf)
-            self.assumptions_by_thm = ax or {}
+            self.assumptions_by_thm = {}
+            for pf in pfs:
+                ax, _ = print_assumptions(pf)
+                self.assumptions_by_thm.update(ax or {})
         else:
-            self.discharged = []
             failed = coq_failed_files(log)
+            failed_files = set(f for f, _ in failed)
+            # theorems of statement files that did build still count as discharged
+            self.discharged = []
+            for pf in pfs:
+                if os.path.exists(os.path.join(COQ, "props", pf + "o")) and ("props/" + pf) not in failed_files:
+                    ax, _ = print_assumptions(pf)
+                    if ax is not None:
+                        self.discharged += count_obligations(pf)
+                        self.assumptions_by_thm.update(ax)
             self.broken.append({"kind": "proof", "files": failed, "log_tail": log[-3000:]})
         bad = forbidden_constructs()
         if bad:
